@@ -270,6 +270,32 @@ def run(ctx):
                     g = [a for a in q.cfg.guards(blk.i) if a[0] == "variant" and len(a[2]) == 1]
                     if g:
                         table[g[0][2][0]] = st.rv.ops[0].const_int()
+        if table != {"Bid": 1, "Ask": 0}:
+            # any other spelling (`!matches!(side, Side::Ask)`, `side == Side::Bid`, ..): the value returned in the view
+            # specialised to each variant of the argument (branches contradicting the variant cut, constants folded)
+            def fold(e):
+                if e[0] == "const" and e[3] in (0, 1):
+                    return int(e[3])
+                if e[0] == "un" and e[1] == "Not":
+                    v = fold(e[2])
+                    return None if v is None else 1 - v
+                if e[0] == "phi":
+                    vs = {fold(x) for x in e[1]}
+                    return vs.pop() if len(vs) == 1 else None
+                return None
+            table = {}
+            for V in ("Bid", "Ask"):
+                def decide(a, V=V):
+                    if a[0] == "variant" and a[1][0] == "param" and a[2] and set(a[2]) <= {"Bid", "Ask"}:
+                        return V in a[2]
+                    if a[0] == "cmp" and a[1] in ("eq", "ne") and a[2][0] == "param" and a[3][0] == "agg" and a[3][2].split("::")[-1] in ("Bid", "Ask"):
+                        return (a[3][2].split("::")[-1] == V) == (a[1] == "eq")
+                    return None
+                try:
+                    cv = m.case_view(q, decide)
+                    table[V] = fold(cv.ret())
+                except Exception:
+                    table[V] = None
         ctx.check(table == {"Bid": 1, "Ask": 0}, "side", "From<Side>", ctx.loc(sb[0]), "bool::from(Side::Bid) = true, Ask = false", "From<Side> for bool maps %s" % table)
     else:
         ctx.lost("side", "From<Side> for bool")
